@@ -34,7 +34,7 @@ REAL = ['glue.core.data.Data mutation API', 'glue.core.component_id', 'glue.core
 STUB = ['recording HubListener', 'uuid and identity-hash streams']
 ASSUMPTIONS = ['messages are compared only when no delay window is open', 'sampling, not proof']
 PROBES = ['rejected_add_wrong_shape', 'rejected_reorder', 'rejected_update_wrong_shape', 'partial_update_then_reject', 'cascade_remove', 'coords_replaced',
-          'coords_removed', 'update_from_new_shape', 'update_from_label_mismatch', 'ops_in_delay_window', 'outside_collection', 'rename', 'update_id', 'joined_collection_later', 'identifier_of_rejected_add_reused', 'flipflop_reorder', 'flipflop_remove_add', 'flipflop_update_id', 'update_id_of_coordinate', 'rename_of_coordinate']
+          'coords_removed', 'update_from_new_shape', 'update_from_label_mismatch', 'ops_in_delay_window', 'outside_collection', 'rename', 'update_id', 'joined_collection_later', 'identifier_of_rejected_add_reused', 'flipflop_reorder', 'flipflop_remove_add', 'flipflop_update_id', 'update_id_of_coordinate', 'rename_of_coordinate', 'duplicate_label', 'update_from_disjoint_labels', 'dataset_emptied']
 
 WEIGHTS = {'add': 5, 'add_bad': 1.5, 'add_derived': 3, 'remove': 3, 'reorder': 2, 'reorder_bad': 1, 'rename': 2, 'update_id': 1.5, 'upd': 3, 'upd_bad': 1,
            'upd_partial': 1, 'upd_from': 2, 'coords': 2, 'label': 1, 'delay_open': 1, 'delay_close': 1.5, 'new': 0.7, 'append': 1, 'flipflop': 1.2}
@@ -71,12 +71,13 @@ def generate(rng, cfg, guards):
         elif k == 'reorder_bad':
             ops.append([k, r8(), rng.pick(['short', 'foreign', 'dup'])])
         elif k == 'rename':
-            ops.append([k, r8(), r8(), rng.chance(0.25)])
+            # a quarter of the renames give the label another attribute of the dataset already has (labels need not be unique)
+            ops.append([k, r8(), r8(), rng.chance(0.25), rng.pick([None, None, None, r8()])])
         elif k in ('upd', 'upd_bad', 'upd_partial'):
             ops.append([k, r8(), r8(), rng.randrange(10000)])
         elif k == 'upd_from':
             ops.append([k, r8(), rng.randrange(10000), rng.pick(['same', 'same', 'shape', 'ndim' if allow_ndim else 'shape']),
-                        rng.pick(['same', 'same', 'extra', 'missing'])])
+                        rng.pick(['same', 'same', 'extra', 'missing', 'disjoint'])])
         elif k == 'coords':
             ops.append([k, r8(), rng.pick([0, 1, 2])])
         elif k == 'label':
@@ -95,6 +96,11 @@ def generate(rng, cfg, guards):
                 ops.append(ff)
         else:
             ops.append(['delay_close', rng.chance(0.2)])
+    if rng.chance(0.15):
+        # a dataset is emptied of its own attributes one by one (it keeps its shape and its axes) and filled again
+        h, at = r8(), rng.randrange(1, len(ops) + 1)
+        ops[at:at] = [['remove', h, r8(), True] for _ in range(rng.randrange(3, 8))] + \
+            [['add_bad', h, rng.randrange(10000), 'array', None], ['add', h, rng.randrange(10000), rng.pick(['array', 'component']), None]]
     return {'knobs': {'guards': list(guards), 'prop': PROP}, 'ops': ops}
 
 
@@ -266,6 +272,8 @@ def execute(case, res):
                 if d is None:
                     continue
                 cs = [c for c in d.components if d.get_kind(c) == 'numerical']
+                if not cs:
+                    continue
                 nname[0] += 1
                 d.add_component_link(ComponentLink([cs[op[2] % len(cs)]], ComponentID('v%d' % nname[0], parent=d), using=LF.ONE[op[3]][0]))
             elif k == 'remove':
@@ -273,11 +281,14 @@ def execute(case, res):
                 if d is None:
                     continue
                 cs = own(d)
-                if len(d.main_components) <= 1 and not d.derived_components:
+                force = len(op) > 3 and op[3]       # the last attribute of its own may go too
+                if not cs or (not force and len(d.main_components) <= 1 and not d.derived_components):
                     continue
                 c = cs[op[2] % len(cs)]
                 if c in d.main_components and len(d.main_components) == 1:
-                    continue
+                    if not force:
+                        continue
+                    res.probe('dataset_emptied')
                 n0 = len(d.components)
                 d.remove_component(c)
                 if n0 - len(d.components) > 1:
@@ -316,10 +327,20 @@ def execute(case, res):
                     cs = list(d.pixel_component_ids) + list(d.world_component_ids)      # axes can be given other names too
                     res.probe('rename_of_coordinate')
                 nname[0] += 1
+                if not cs:
+                    continue
                 c = cs[op[2] % len(cs)]
                 if op[2] == -1 and last_added[0] is not None and any(last_added[0] is x for x in cs):
                     c = last_added[0]
-                c.label = 'r%d' % nname[0]
+                allc = list(d.components)
+                if len(op) > 4 and op[4] is not None and allc[op[4] % len(allc)].label != c.label:
+                    # (assigning the label an identifier already has is announced by glue as a rename; whether that is a
+                    # change is a matter of taste and not generated)
+                    c.label = allc[op[4] % len(allc)].label
+                    if sum(1 for x in allc if x.label == c.label) > 1:
+                        res.probe('duplicate_label')
+                else:
+                    c.label = 'r%d' % nname[0]
                 res.probe('rename')
             elif k == 'update_id':
                 d = target = pick(op[1])
@@ -330,6 +351,8 @@ def execute(case, res):
                     # pixel and world attributes can be re-identified as well
                     cs = list(d.pixel_component_ids) + list(d.world_component_ids)
                     res.probe('update_id_of_coordinate')
+                if not cs:
+                    continue
                 old = cs[op[2] % len(cs)]
                 if op[2] == -1:
                     if last_new[0] is None or not any(last_new[0] is x for x in d.components):
@@ -371,6 +394,8 @@ def execute(case, res):
                             d.add_component(comp, c)
                 else:
                     mains = list(d.main_components)
+                    if not mains:
+                        continue
                     a = mains[op[4] % len(mains)]
                     if any(any(a is f for f in d.get_component(x).link.get_from_ids()) for x in d.derived_components):
                         continue
@@ -387,6 +412,8 @@ def execute(case, res):
                 if d is None:
                     continue
                 cs = [c for c in d.main_components if d.get_kind(c) == 'numerical']
+                if not cs:
+                    continue
                 c = cs[op[2] % len(cs)]
                 if k == 'upd':
                     d.update_components({c: W.values(op[3], d.shape)})
@@ -418,6 +445,13 @@ def execute(case, res):
                     shape = cands[op[2] % len(cands)]
                 other = Data(label=d.label)
                 labels = [c.label for c in d.main_components]
+                if not labels or len(set(labels)) != len(labels) or len(set(c.label for c in d.components)) != len(d.components):
+                    continue        # refreshing a dataset with ambiguous labels is refused by glue (documented ValueError)
+                if op[4] == 'disjoint':
+                    # no attribute in common: everything the dataset has is replaced
+                    labels = ['y%d_%d' % (nname[0], j) for j in range(len(labels))]
+                    nname[0] += 1
+                    res.probe('update_from_disjoint_labels')
                 if op[4] == 'missing' and len(labels) > 1:
                     labels = labels[:-1]
                     res.probe('update_from_label_mismatch')
